@@ -77,11 +77,11 @@ def autodiff_errors(spec, obj, x, cond=None, tol=1e-7):
         xv, yv = float(x), float(y)
         if xv in (np.nextafter(lo, -np.inf), np.nextafter(hi, np.inf)):
             return errs  # one ulp outside: the kink itself (identity branch), nothing to compare
-        if lo <= xv <= hi and yv in (lo, hi):
+        if lo <= xv <= hi and min(abs(yv - lo), abs(yv - hi)) <= 8 * np.spacing(max(abs(lo), abs(hi), 1.0)):
             # the image sits exactly on an interval end: jnp.clip ties there and autodiff halves the derivative (artefact of the
             # oracle).  Reference = the inner derivative, extrapolated linearly from two autodiff points further inside.
             pos = np.asarray(u.x_pos, dtype=float)
-            left = yv == lo
+            left = abs(yv - lo) < abs(yv - hi)
             w = (pos[1] - pos[0]) if left else (pos[-1] - pos[-2])
             h = 1e-6 * w * (1 if left else -1)
             l1 = np.log(float(_flat_jac(None, np.asarray(xv + h), owner=obj)[0, 0]))
@@ -95,6 +95,11 @@ def autodiff_errors(spec, obj, x, cond=None, tol=1e-7):
     if sign == 0 or not np.isfinite(ref):
         return errs
     if not abs(ld - ref) <= tol * max(1.0, abs(ref)):
+        # confirm with the EAGER Jacobian before reporting: under jit XLA may contract a*b+c, which can move a spline image onto an
+        # interval end exactly (jnp.clip tie -> halved derivative), an artefact of the jitted oracle only
+        Je = _flat_jac(lambda v: obj.transform(v, *args), x)
+        sign, ref = np.linalg.slogdet(Je)
+    if sign != 0 and np.isfinite(ref) and not abs(ld - ref) <= tol * max(1.0, abs(ref)):
         errs.append(f"transform_and_log_det log_det = {ld!r} but ln|det jacobian(transform)| = {float(ref)!r} at x = {np.ravel(x).tolist()}")
     # inverse law: the log-det returned with the inverse = minus the forward log-det AT THE INVERSE IMAGE x2 (evaluated there,
     # not at x: x2 equals x only up to the map's conditioning, and the log-det may vary quickly)
